@@ -29,6 +29,8 @@ fn frames_for(kind: &str, victim: &str, seen: Option<(u64, u64)>) -> Option<Vec<
         "handshake_done" => frame::HandshakeDone.encode_to_vec(),
         "conn_data_beyond" => { let (id, _) = seen?; stream(id, 100_000, &[1], false) }
         "stream_in_handshake" => stream(peer_bidi, 0, &[1], false),
+        // CONNECTION_CLOSE of type 0x1d (application close) is only allowed in 0-RTT / 1-RTT packets (RFC 9000 12.4/12.5)
+        "app_close_in_handshake" => vec![0x1d, 0x07, 0x00],
         _ => return None,
     })
 }
@@ -41,7 +43,7 @@ pub fn rewriter(v: Violation) -> Box<dyn FnMut(i64, &'static str, u64, &[u8]) ->
         if done || conn != 0 || crate::common::now_us() < v.after_us {
             return None;
         }
-        let want_space = if v.kind == "stream_in_handshake" { "h" } else { "a" };
+        let want_space = if v.kind == "stream_in_handshake" || v.kind == "app_close_in_handshake" { "h" } else { "a" };
         if sp != want_space {
             return None;
         }
